@@ -144,6 +144,7 @@ func runC10(c *Ctx, tier string) {
 	runSpillPartialsPairing(c, "C10-S4")
 	runPartialOutputForm(c, "C10-S5")
 	runGroupRowStamp(c, "C10-R1")
+	runSpillRunsShareContext(c, "C10-X1")
 }
 
 func recvType(cc *ssa.CallCommon) types.Type {
